@@ -115,7 +115,10 @@ def st_option_point():
                     f.add(k + 1)
             o["faults"] = sorted(f)
         elif sub == "dynamic":
+            # @MaximalTimeStep only acts after a rejected step: one injected failure; @MinimalTimeStep is always
+            # written (without it the end-of-period clamp is dead: known finding C48...dynamic_without_minimal_time_step)
             o["maxdt_fraction"] = draw(st.floats(0.15, 1.5))
+            o["faults"] = [draw(st.integers(0, 30))]
         elif sub == "itermax":
             o["itermax"] = draw(st.integers(3, 8))
         return o
@@ -161,7 +164,8 @@ def point_text(pb, o, times, reference=False):
                 env = {"VERIF_FAULTS": ",".join(str(k) for k in o["faults"])}
             if "maxdt_fraction" in o:
                 dtmin = min(b - a for a, b in zip(times, times[1:]))
-                L += [["@DynamicTimeStepScaling", "true"], ["@MaximalTimeStep", g.fmt(o["maxdt_fraction"] * dtmin)]]
+                L += [["@DynamicTimeStepScaling", "true"], ["@MaximalTimeStep", g.fmt(o["maxdt_fraction"] * dtmin)],
+                      ["@MinimalTimeStep", g.fmt(1e-9 * dtmin)]]
         else:
             L.append(["@MaximumNumberOfSubSteps", "1"])
         args = ["--rounding-direction-mode=" + o["rounding"]]
